@@ -288,8 +288,11 @@ C17_MsgOfType(S) ==
 
 \* ---- expected-field dictionaries used to question the assert helpers (records; <<>> is the empty dictionary)
 NoFields == <<>>
+NoneV == 0 - 99            \* stands for Python's None as a field value (the harness maps it both ways)
 Exps(S, i, j) ==           \* i: the message the expectation is written for; j: some other message
-  <<NoFields, [x |-> S[i].f.x], [x |-> S[j].f.x], [x |-> S[i].f.x, c |-> S[i].f.c], [x |-> S[i].f.x, z |-> 0], [c |-> S[i].f.c + 1]>>
+  <<NoFields, [x |-> S[i].f.x], [x |-> S[j].f.x], [x |-> S[i].f.x, c |-> S[i].f.c], [x |-> S[i].f.x, z |-> 0], [c |-> S[i].f.c + 1],
+    [n |-> NoneV],         \* 7: key present with value None, expected None: accepted
+    [z |-> NoneV]>>        \* 8: key ABSENT from the message, expected value None: not a superset, must be refused
 \*          none      right             wrong value       two right                          missing key                    wrong constant
 Other(S, i) == IF Len(S) = 1 THEN 1 ELSE IF i = Len(S) THEN 1 ELSE i + 1
 \* the second started action of the type if there is one (its values must NOT be accepted), else any other message
@@ -308,7 +311,7 @@ ActionQueries(S, ty) ==
            EF == Exps(S, e, e2)
        IN \* everything right (three ways), then exactly one thing wrong: a start field, an end field, the outcome
           {[ty |-> ty, succ |-> ok, sf |-> SF[p[1]], ef |-> EF[p[2]]] :
-              p \in {<<1, 1>>, <<2, 2>>, <<4, 4>>, <<3, 1>>, <<1, 3>>, <<5, 1>>, <<1, 5>>, <<6, 2>>, <<2, 6>>}}
+              p \in {<<1, 1>>, <<2, 2>>, <<4, 4>>, <<3, 1>>, <<1, 3>>, <<5, 1>>, <<1, 5>>, <<6, 2>>, <<2, 6>>, <<7, 7>>, <<8, 1>>, <<1, 8>>}}
           \cup {[ty |-> ty, succ |-> ~ok, sf |-> SF[p], ef |-> EF[p]] : p \in {1, 2}}
 MessageQueries(S, ty) ==
   LET ms == {i \in DOMAIN S : S[i].k = "msg" /\ S[i].ty = ty} IN
@@ -316,7 +319,7 @@ MessageQueries(S, ty) ==
   ELSE LET i == Min(ms)
            j == IF ms \ {i} # {} THEN Min(ms \ {i}) ELSE Other(S, i)
            E == Exps(S, i, j)
-       IN {[ty |-> ty, exp |-> E[p]] : p \in 1..6}
+       IN {[ty |-> ty, exp |-> E[p]] : p \in 1..8}
 
 \* the assert helpers succeed exactly when the first entry of the type has the expected outcome and a superset of
 \* the expected fields (and then return that entry)
